@@ -7,6 +7,8 @@ pub mod stubs;
 #[macro_use]
 pub mod util;
 #[cfg(kani)]
+pub mod common;
+#[cfg(kani)]
 mod c01;
 #[cfg(kani)]
 mod c02;
